@@ -36,6 +36,9 @@ func init() {
 			cfg := baseConfig("C05", r, thorough)
 			cfg.PSubmit = 0.25 + 0.25*r.Float()
 			cfg.FairSuffix = true
+			if r.Bool(0.5) {
+				cfg.PCommitSubmit = 0.3
+			}
 			mixStores(cfg, r, 0.2)
 			if r.Bool(0.4) {
 				cfg.PCrash = 0.01
